@@ -1,6 +1,7 @@
 (* Statements of C04 assembled from the proof files. *)
 From PyGql Require Import Spec.ExecSpec Exec.ExecCache.
 From PyGql Require Export Proofs.ExecProofs Proofs.ExecCollectProofs Proofs.ExecCacheProofs Proofs.ExecSpecProofs.
+From PyGql Require Export Proofs.ExecRejProofs.
 
 Arguments field_definition : simpl never.
 Arguments collect_for : simpl never.
@@ -44,7 +45,7 @@ Lemma exec_sel_errors_nulls sch frags vs coerce_args world tyres cfuel fuel tnam
   schema_nn_ok sch ->
   exec_sel sch frags vs coerce_args world tyres cfuel fuel tname v p sels = Ok (d, es) ->
   NoDup (map e_path es) /\
-  Forall (fun e => exists q, e_path e = p ++ q /\ at_path d q = Some PNone) es.
+  Forall (fun e => exists q, e_path e = p ++ q /\ null_on_path d q) es.
 Proof.
   intros Hs H. apply (exec_sel_wf _ _ _ _ _ _ _ Hs) in H. destruct H as [[Hw Hn] _]. split; assumption.
 Qed.
@@ -92,6 +93,36 @@ Section Failures.
     destruct r1; inversion H; subst; try exact H1. congruence.
   Qed.
 End Failures.
+
+(* a sub-selection that cannot be collected (invalid @skip / @include
+   arguments): the enclosing field is null with exactly one more error, at the
+   field's path; what list items completed before had recorded stays, strictly
+   below that path *)
+Lemma subselection_abort_local sch tyres sub_exec nodes t p v k q :
+  (forall tn x p' ss k' q', sub_exec tn x p' ss = Rejected k' q' -> k' = REJ_COERCION) ->
+  nn_ok t = true ->
+  (forall tn x p' sels r, sub_exec tn x p' sels = Ok r -> wf_res p' r /\ fst r <> PNone) ->
+  complete_value sch tyres sub_exec nodes t p v = Rejected k q ->
+  complete_field sch tyres sub_exec nodes t p v =
+    Ok (PNone, complete_value_partial sch tyres sub_exec nodes t p v ++ [Err p [] ECoercion]) /\
+  Forall (below p) (complete_value_partial sch tyres sub_exec nodes t p v).
+Proof.
+  intros HK Hnn Hsub H. split.
+  - unfold complete_field. rewrite H. rewrite (complete_value_rej sch tyres sub_exec HK _ _ _ _ _ _ H).
+    reflexivity.
+  - apply (complete_value_partial_wf sch tyres sub_exec Hsub nodes t p v Hnn).
+Qed.
+
+(* ... and on the root selection set the whole request is rejected: a
+   selection set is rejected exactly when collecting its fields is *)
+Lemma root_collect_rejection sch frags vs coerce_args world tyres cfuel fuel tname v p sels k q :
+  (exec_sel sch frags vs coerce_args world tyres cfuel fuel tname v p sels = Rejected k q ->
+   collect_for sch frags vs cfuel tname sels = Rejected k q /\ k = REJ_COERCION) /\
+  (collect_for sch frags vs cfuel tname sels = Rejected k q ->
+   exec_sel sch frags vs coerce_args world tyres cfuel (S fuel) tname v p sels = Rejected k q).
+Proof.
+  split; [apply exec_sel_rej|]. intros H. simpl. rewrite H. reflexivity.
+Qed.
 
 (* ---- full-strength statements that are only partly proved (see docs/C04.md) *)
 
